@@ -592,9 +592,13 @@ class Check(common.Check):
         if r < 0.90:
             limit = rng.choice([8192, 65504, 65468, 64, 100, 256, 1000])
             return {'k': 'clump', 'size': limit, 'els': self.g_elems_near(rng, limit)}
-        if r < 0.95:
+        if r < 0.93:
             return self.g_reuse(rng)
-        if r < 0.975:
+        if r < 0.945:
+            return self.g_dsend(rng)
+        if r < 0.96:
+            return self.g_bna(rng)
+        if r < 0.98:
             t = rng.choice([None, float(0.25).hex(), float(0).hex()])
             self.SUBT = rng.choice([None, 0, jf(0.5)]) if t is None else rng.choice([jf(1.5), 3])
             return {'k': 'sendc', 'time': t,
@@ -603,6 +607,52 @@ class Check(common.Check):
         self.SUBT = rng.choice([None, 0, jf(0.5)]) if t is None else rng.choice([jf(1.5), 3])
         return {'k': 'sync', 'lat': t,
                 'els': self.g_elems_near(rng, rng.choice([65468, 65468, 65504, 8192]))}
+
+    COMPLETIONS = [None, None, [js('/s_new'), js('big'), 1000, 0, 1], [js('/n_set'), 1, js('a'), jf(0.5)],
+                   [None, [js('/a')], [js('/b'), 1]], [js('/c')], [js('/s_new'), js('a-much-longer-definition-name'), -1, 1, 0,
+                                                             js('freq'), jf(440.0), js('amp'), jf(0.5)]]
+
+    def g_dsend(self, rng):
+        """SynthDef._do_send: definition size straddling the UDP limit, with / without completion message"""
+        comp = rng.choice(self.COMPLETIONS)
+        r = rng.random()
+        if r < 0.8:
+            size = MAX_DGRAM - 16 + rng.randrange(-100, 12)
+        elif r < 0.9:
+            size = rng.randrange(1, 400)
+        else:
+            size = MAX_DGRAM + rng.randrange(0, 3000)
+        return {'k': 'dsend', 'size': size, 'completion': comp}
+
+    def g_bna(self, rng):
+        """BundleNetAddr (server.bind()): messages, sync, more messages, exit"""
+        ops, i = [], 0
+
+        def el():
+            nonlocal i
+            i += 1
+            if rng.random() < 0.15:
+                return [None, [js(f'/e{i}'), i]]
+            return [js(f'/e{i}'), i] + ([js('x' * rng.randrange(9))] if rng.random() < 0.3 else [])
+        for _ in range(rng.randrange(2, 13)):
+            r = rng.random()
+            if r < 0.5:
+                ops.append(['msg', el()])
+            elif r < 0.62:
+                ops.append(['bundle', [el() for _ in range(rng.randrange(0, 4))]])
+            elif r < 0.7:
+                ops.append(['clumped', [el() for _ in range(rng.randrange(0, 4))]])
+            elif r < 0.74:
+                ops.append(['status'])
+            elif r < 0.93:
+                ops.append(['sync', None])
+            else:
+                ops.append(['sync', [el() for _ in range(rng.randrange(0, 3))]])
+        return {'k': 'bna', 'ops': ops}
+
+    @staticmethod
+    def def_bytes(n):
+        return bytes((i * 7 + 3) % 251 for i in range(n))
 
     def g_reuse(self, rng):
         """call histories: the SAME argument objects given to a send path 2-4 times"""
@@ -694,6 +744,24 @@ class Check(common.Check):
                 lines.append('dec ' + c['hex']); idx.append(1)
             elif k == 'clump':
                 lines.append(f'clump {c["size"]} ' + tok(self.els_list(c['els']))); idx.append(1)
+            elif k == 'dsend':
+                hx = self.def_bytes(c['size']).hex()
+                lines.append(f'dsend B{hx} {tok(c["completion"])}')
+                lines.append(f'msg 0/1 0 L3 S2f645f72656376 B{hx} {tok(c["completion"])}')
+                idx.append(2)
+            elif k == 'bna':
+                lines.append('bna reset')
+                for op in c['ops']:
+                    if op[0] == 'msg':
+                        lines.append('bna msg ' + tok(op[1]))
+                    elif op[0] in ('bundle', 'clumped'):
+                        lines.append('bna ext ' + tok(op[1]))
+                    elif op[0] == 'status':
+                        lines.append('bna ext L0')
+                    else:
+                        lines.append('bna sync ' + ('-' if op[1] is None else tok(op[1])))
+                lines.append('bna exit')
+                idx.append(len(c['ops']) + 2)
             elif k == 'reuse':
                 m = c['method']
                 if m == 'msg':
@@ -719,6 +787,15 @@ class Check(common.Check):
                 res.append(d)
             elif k == 'dec':
                 res.append({'dec': o[0]})
+            elif k == 'dsend':
+                if o[0] == 'recv':
+                    res.append({'r': ('ok recv %d' % ((len(o[1]) - 3) // 2)) if o[1].startswith('ok ') else o[1]})
+                elif o[0] == 'load':
+                    res.append({'r': 'ok load'})
+                else:
+                    res.append({'r': o[0]})
+            elif k == 'bna':
+                res.append({'ops': [x.rstrip() for x in o[1:]]})
             elif k == 'reuse':
                 if c['method'] in ('msg', 'bundle'):       # every call sends these very bytes
                     res.append({'r': o[0] if not o[0].startswith('ok ') else 'ok ' + ';'.join([o[0][3:]] * c['n'])})
@@ -735,12 +812,14 @@ class Check(common.Check):
         return res
 
     KEYS = {'msg': ('r', 'dec', 'size'), 'bndl': ('r', 'dec', 'size'), 'dec': ('dec',), 'clump': ('r',),
-            'sendc': ('r',), 'sync': ('r',), 'reuse': ('r',)}
+            'sendc': ('r',), 'sync': ('r',), 'reuse': ('r',), 'dsend': ('r',), 'bna': ('ops',)}
 
     def compare(self, case, io, mo):
         diff = {}
         for key in self.KEYS[case['k']]:
             a, b = io.get(key), mo.get(key)
+            if key == 'ops' and isinstance(a, list):
+                a = [x.rstrip() for x in a]
             if case['k'] in ('sendc', 'sync') and key == 'r':
                 a = ('ok ' + ','.join(str(x) for x in io.get('counts', []))) if a == 'ok' else a
             if case['k'] == 'reuse' and case['method'] in ('msg', 'bundle') and key == 'r' and str(a).startswith('ok '):
@@ -766,6 +845,64 @@ class Check(common.Check):
             return self.oracle_send(c, o)
         if k == 'reuse':
             return self.oracle_reuse(c, o)
+        if k == 'dsend':
+            return self.oracle_dsend(c, o)
+        if k == 'bna':
+            return self.oracle_bna(c, o)
+        return None
+
+    def oracle_dsend(self, c, o):
+        if not o['r'].startswith('ok'):
+            return {'what': f'_do_send raised {o["r"]}', 'signature': 'c06:send-raises'}
+        if len(o['sizes']) != 1:
+            return {'what': f'_do_send sent {o["kinds"]}', 'signature': 'c06:dsend-count'}
+        if o['sizes'][0] > MAX_DGRAM:
+            return {'what': f'SynthDef._do_send (definition of {c["size"]} bytes, completion message '
+                            f'{c["completion"]!r:.80}) handed a {o["kinds"][0]} datagram of {o["sizes"][0]} bytes to the '
+                            f'socket (limit {MAX_DGRAM}) instead of falling back to /d_load',
+                    'signature': 'c06:dgram-over-limit'}
+        if o['kinds'] == ['/d_recv']:
+            if not o.get('blob_ok'):
+                return {'what': '/d_recv does not carry the definition bytes', 'signature': 'c06:roundtrip-strict'}
+            # the completion message must be there, as the documented coercion says
+            try:
+                exp = expect_msg([js('/x'), c['completion']], 0.0, 0)
+            except (Refuse, OutOfDomain):
+                return None
+            tail = bytes.fromhex(o['tail'])
+            v = exp[2][0]
+            if v[0] == 'nested':
+                ok = len(tail) >= 4 and same(v[1], osc10.read_packet(tail[4:]))
+            else:
+                ok = tail == struct.pack('>i', v[1])
+            if not ok or o.get('ntags') != 2:
+                return {'what': f'/d_recv carries {tail[:40]!r} where the completion message {c["completion"]!r:.80} '
+                                f'belongs', 'signature': 'c06:roundtrip-strict'}
+        return None
+
+    def oracle_bna(self, c, o):
+        if o['r'] != 'ok':
+            return {'what': f'BundleNetAddr history raised {o["r"]}', 'signature': 'c06:send-raises'}
+        want, nsync = [], 0
+        for op in c['ops']:
+            if op[0] == 'msg':
+                want += self.addr_seq(op[1])
+            elif op[0] in ('bundle', 'clumped'):
+                want += [a for e in op[1] for a in self.addr_seq(e)]
+            elif op[0] == 'sync':
+                nsync += 1
+                if op[1]:
+                    want += [a for e in op[1] for a in self.addr_seq(e)]
+        got = [a for d in o['dgrams'] for a in d['addrs']]
+        if [a for a in got if a != '/sync'] != want:
+            missing = [a for a in want if a not in got]
+            return {'what': f'server.bind() / BundleNetAddr: the datagrams carry {[a for a in got if a != "/sync"][:14]}, '
+                            f'the messages collected were {want[:14]} (missing {missing[:6]}): every element must be '
+                            f'sent exactly once and in order', 'signature': 'c06:bundle-netaddr-elements'}
+        if got.count('/sync') != nsync:
+            return {'what': f'{got.count("/sync")} /sync messages for {nsync} sync() calls', 'signature': 'c06:sync-missing'}
+        if any(d['size'] > MAX_DGRAM for d in o['dgrams']):
+            return {'what': 'datagram over the limit', 'signature': 'c06:dgram-over-limit'}
         return None
 
     def oracle_reuse(self, c, o):
@@ -897,6 +1034,10 @@ class Check(common.Check):
             return o['r'] == 'ok' and len(o.get('sizes', [])) >= 2
         if c['k'] == 'reuse':
             return o['r'].startswith('ok ')
+        if c['k'] == 'dsend':
+            return o['r'].startswith('ok')
+        if c['k'] == 'bna':
+            return o['r'] == 'ok' and len(o.get('dgrams', [])) >= 2
         return o.get('dec', '').startswith('ok ')
 
     def histogram(self, cases, outs):
@@ -915,6 +1056,8 @@ class Check(common.Check):
                 inc(f'dgram_mod4:{n % 4}')
             if k == 'reuse':
                 inc('reuse:' + c['method'])
+            if k == 'dsend':
+                inc('dsend:' + ' '.join(o.get('r', '').split()[:2]))
             if k == 'clump' and r.startswith('ok '):
                 inc('clumps:' + str(min(r.count(',') + 1, 5)) + ('+' if r.count(',') >= 4 else ''))
         return h
@@ -924,6 +1067,8 @@ class Check(common.Check):
             head = c['args'][0]
             rest = common.shrink_list(c['args'][1:], lambda l: fails(dict(c, args=[head] + l)))
             return dict(c, args=[head] + rest)
+        if c['k'] == 'bna' and len(c['ops']) > 1:
+            return dict(c, ops=common.shrink_list(c['ops'], lambda l: fails(dict(c, ops=l))))
         if c['k'] in ('clump', 'sendc', 'sync') or (c['k'] == 'reuse' and c['method'] != 'msg') and len(c['els']) > 1:
             return dict(c, els=common.shrink_list(c['els'], lambda l: fails(dict(c, els=l))))
         return c
@@ -934,4 +1079,4 @@ Check.THEOREMS = ['Sc3Verif.C06.' + t for t in (
     'nested_bundle_blob', 'coercions', 'validUtf8_string', 'refused_not_altered', 'representable_accepted', 'accepted_parses',
     'aligned4', 'string_blob_layout', 'message_layout', 'big_endian', 'element_size_prefix', 'frame_reads_back',
     'predict_ge_real_msg', 'predict_ge_real_bundle', 'clump_concat', 'clump_within_limit',
-    'send_clumped_within_limit', 'sync_within_limit', 'decoder_total')]
+    'send_clumped_within_limit', 'sync_within_limit', 'd_recv_within_limit', 'bundle_netaddr_carries_all', 'decoder_total')]
